@@ -3,6 +3,7 @@ import BlobfinderModel.Properties.C05
 import BlobfinderModel.Model.Fullmatch
 import BlobfinderModel.Model.Tumble
 import BlobfinderModel.Proofs.FastExact
+import BlobfinderModel.Proofs.AngleCheck
 /-!
 # C12 — full matching partitions the peaks and returns self-consistent matches  (partial)
 
@@ -338,5 +339,28 @@ example :
     = .some (0, 0) (10, 0) (0, 10) [true, true, false, true, false, true, true]
         [(0, 0), (1, 0), (0, 1), (1, 1), (2, 1)] := by
   decide +kernel
+
+/-! ### `check` as written vs `check` as modelled (real numbers) -/
+
+/-- **the angle test**: for vectors given by `make_polar` (`a = ra (sin α, cos α)` in `(y, x)` order) and
+`0 ≤ min_angle ≤ π/2`, the test of `angle_check` — `|α - β| % π` strictly between `min_angle` and
+`π - min_angle` (`Gen.angle_diff_expr`, `Gen.angle_ok`) — holds exactly when
+`sin²(min_angle) ‖a‖²‖b‖² < det(a, b)²`, the form `Model.checkM` uses; in particular it is independent of the
+orientation of the pair and of the branch cut of `arctan2` -/
+theorem check_angle_bridge (ra rb α β lim : ℝ) (hra : 0 < ra) (hrb : 0 < rb) (hl0 : 0 ≤ lim)
+    (hl1 : lim ≤ Real.pi / 2) :
+    (lim < modPi |α - β| ∧ modPi |α - β| < Real.pi - lim) ↔
+      Real.sin lim ^ 2 * (((ra * Real.sin α) ^ 2 + (ra * Real.cos α) ^ 2) * ((rb * Real.sin β) ^ 2 + (rb * Real.cos β) ^ 2))
+        < ((ra * Real.sin α) * (rb * Real.cos β) - (rb * Real.sin β) * (ra * Real.cos α)) ^ 2 :=
+  angle_check_iff ra rb α β lim hra hrb hl0 hl1
+
+/-- Python's `%` with a positive modulus lands in `[0, π)` -/
+theorem mod_pi_range (x : ℝ) : 0 ≤ modPi x ∧ modPi x < Real.pi := modPi_range x
+
+/-- **the length test**: `min_delta ≤ ‖v‖ ≤ max_delta` ⇔ the comparison of squares (`0 ≤ min_delta, max_delta`) -/
+theorem check_length_bridge (v1 v2 lo hi : ℝ) (hlo : 0 ≤ lo) (hhi : 0 ≤ hi) :
+    (lo ≤ Real.sqrt (v1 ^ 2 + v2 ^ 2) ∧ Real.sqrt (v1 ^ 2 + v2 ^ 2) ≤ hi) ↔
+      (lo ^ 2 ≤ v1 ^ 2 + v2 ^ 2 ∧ v1 ^ 2 + v2 ^ 2 ≤ hi ^ 2) :=
+  length_check_iff v1 v2 lo hi hlo hhi
 
 end C12
